@@ -60,6 +60,15 @@ def type_catalogue(tier):
             cat.append(["union", [first, second]])
             cat.append(["struct", [first, second]])
             cat.append(["delim", ["union", [first, second]], 128])
+    # one name and one layout under versions that coincide when the numbers are folded (major * 100 + minor) or their digits run together
+    for v in ([1, 0], [1, 1], [1, 10], [11, 0], [1, 100], [2, 0], [0, 200], [1, 155], [2, 55], [25, 5], [0, 1], [0, 10], [0, 100]):
+        cat.append(["named", ["struct", [["uint", 8, "s"]]], "Versioned", v])
+    cat.append(["named", ["struct", [["int", 8]]], "Versioned", [1, 0]])
+    cat.append(["named", ["union", [["uint", 8, "s"], ["bool"]]], "Versioned", [2, 0]])
+    # variable-length arrays of composed elements with capacities at and beyond the divisor the approximate equality uses (32)
+    for e in (["struct", [["uint", 8, "s"]]], ["varr", ["uint", 8, "s"], 2], ["union", [["bool"], ["uint", 16, "s"]]]):
+        for c in (31, 32, 33, 64, 255, 1000):
+            cat.append(["struct", [["varr", e, c], ["bool"]]])
     return cat
 
 
@@ -86,6 +95,10 @@ def value_catalogue():
         out.append(["str", s])
     out += [["set", [["q", 1]]], ["set", [["q", 1], ["q", 2]]], ["set", [["q", 2], ["q", 1]]], ["set", [["str", "a"]]], ["set", [["bool", True]]], ["set", [["q", [2, 2]], ["q", 2]]]]
     out += [["set", [["set", [["q", 1]]]]]]
+    # sets of 9..20 elements whose members collide in a hash table (multiples of 8), constructed in different orders
+    for n in (8, 9, 12, 20):
+        els = [["q", 8 * i] for i in range(n)]
+        out += [["set", els], ["set", list(reversed(els))], ["set", els[::2] + els[1::2]], ["set", els[n // 2 :] + els[: n // 2]], ["set", els + els[:3]]]
     return out
 
 
@@ -164,6 +177,8 @@ def make_value(d):
 def make(cat, d):
     """A fresh, independently constructed object (no shared sub-objects with any other call)."""
     if cat == "type":
+        if d[0] == "named":  # ["named", composite desc, short name, [major, minor]]
+            return T.build_named(d[1], d[2], tuple(d[3]))
         return T.build(d, cache={})
     if cat == "attr":
         if d[0] == "field":
@@ -195,7 +210,7 @@ def must_differ(cat, da, db, a, b) -> bool | None:
     if cat == "type":
         if type(a) is not type(b) or str(a) != str(b):
             return True
-        ea, eb = L.lengths(da), L.lengths(db)
+        ea, eb = L.lengths(da[1] if da[0] == "named" else da), L.lengths(db[1] if db[0] == "named" else db)
         return True if ea != eb else None
     if cat == "attr":
         if da[0] != db[0]:
